@@ -146,6 +146,14 @@ Proof.
   intros y Hy. pn. apply H1. exact Hy.
 Qed.
 
+Lemma quiet_fn_expr fp pb op x : quiet op -> panic x = false -> panic (visit_fn_expr fx fp pb op x) = false.
+Proof.
+  intros H1 Hx. unfold visit_fn_expr, visit_fn_like. pn. apply quiet_with_child; [apply quiet_block_end; exact H1 | exact Hx].
+Qed.
+
+Lemma quiet_for_head fp pb op x : quiet op -> panic x = false -> panic (visit_for_head fx fp pb op x) = false.
+Proof. intros H1 Hx. unfold visit_for_head. destruct (fixE fx); [apply quiet_fn_expr; assumption | exact Hx]. Qed.
+
 Lemma quiet_visit_switch p cs opc x : quiet opc -> panic x = false -> panic (visit_switch p cs opc x) = false.
 Proof.
   intros H1 Hx. unfold visit_switch, switch_tail. cbv zeta.
@@ -192,6 +200,7 @@ Proof.
   - intros p v i x Hx. cbn [an]. destruct i; pn; exact Hx.
   - intros p n pb b IHb x Hx. cbn [an]. unfold visit_fn_like. apply quiet_with_child; [apply quiet_block_end; exact IHb | exact Hx].
   - intros p pb b IHb x Hx. cbn [an]. pn. unfold visit_fn_like. apply quiet_with_child; [apply quiet_block_end; exact IHb | exact Hx].
+  - intros p gp pb b IHb x Hx. cbn [an]. apply quiet_fn_expr; [exact IHb | exact Hx].
   - intros p a x Hx. cbn [an]. unfold visit_return. destruct a; pn; exact Hx.
   - intros p e x Hx. cbn [an]. unfold visit_throw. destruct (fixD fx); pn; exact Hx.
   - intros p l x Hx. cbn [an]. pn. exact Hx.
@@ -205,6 +214,7 @@ Proof.
   - intros p c b IHb x Hx. cbn [an]. apply quiet_visit_for; [exact IHb | exact Hx].
   - intros p b IHb x Hx. cbn [an]. apply quiet_visit_for_in; [exact IHb | exact Hx].
   - intros p b IHb x Hx. cbn [an]. apply quiet_visit_for_in; [exact IHb | exact Hx].
+  - intros p g fp pb hb IHh b IHb x Hx. cbn [an]. apply quiet_visit_for_in; [exact IHb|]. apply quiet_for_head; [exact IHh | exact Hx].
   - intros p cs IH x Hx. cbn [an]. apply quiet_visit_switch; [exact IH | exact Hx].
   - intros p l b IHb x Hx. cbn [an]. apply quiet_with_child; [apply quiet_orb_mark; exact IHb | exact Hx].
   - intros p bp blk IHb h hb IHh f fb IHf x Hx. cbn [an]. apply quiet_visit_try; assumption.
